@@ -10,6 +10,7 @@
 package interp
 
 import (
+	"math"
 	"go/token"
 	"bytes"
 	"encoding/base64"
@@ -1045,7 +1046,34 @@ func ext۰json۰Marshal(fr *frame, args []value) value {
 	} else {
 		root = fr.i.jsonEncode(iv.t, iv.v, 0)
 	}
+	// encoding/json refuses NaN and the infinities (UnsupportedValueError)
+	if bad := jsonBadFloat(root); bad != "" {
+		return tuple{[]value(nil), iface{errorType, "json: unsupported value: " + bad}}
+	}
 	return tuple{&blob{root: root, n: -1}, iface{}}
+}
+
+// jsonBadFloat finds a concrete float leaf JSON cannot express.
+func jsonBadFloat(n *jnode) string {
+	if n == nil {
+		return ""
+	}
+	if n.k == jNum {
+		if f, ok := n.v.(float64); ok && (math.IsInf(f, 0) || math.IsNaN(f)) {
+			return strconv.FormatFloat(f, 'g', -1, 64)
+		}
+	}
+	for _, e := range n.elems {
+		if s := jsonBadFloat(e); s != "" {
+			return s
+		}
+	}
+	for _, f := range n.fields {
+		if s := jsonBadFloat(f.val); s != "" {
+			return s
+		}
+	}
+	return ""
 }
 
 func ext۰json۰Unmarshal(fr *frame, args []value) value {
